@@ -119,3 +119,23 @@ func NetDial() DialFunc {
 	}
 	return nil
 }
+
+// AMQPDialFunc is the shape of amqp.Config.Dial.
+type AMQPDialFunc func(network, addr string) (net.Conn, error)
+
+var amqpHook atomic.Pointer[AMQPDialFunc]
+
+func SetAMQPDial(f AMQPDialFunc) {
+	if f == nil {
+		amqpHook.Store(nil)
+		return
+	}
+	amqpHook.Store(&f)
+}
+
+func AMQPDial() AMQPDialFunc {
+	if p := amqpHook.Load(); p != nil {
+		return *p
+	}
+	return nil
+}
